@@ -16,6 +16,7 @@ import Kingdon.Model.Hitzer
 import Kingdon.Model.Matrix
 import Kingdon.Lemmas.SourceBase
 import Kingdon.Generated.SourcePoly
+import Kingdon.Lemmas.SourceOuterOps
 open Kingdon
 
 def hexDigit? (ch : Char) : Option Nat :=
@@ -409,6 +410,19 @@ def step (line : String) : String :=
     | _, _, _ => "bad-op"
   | "kpoly" :: prog => KP.runProgram prog
   | "srckpoly" :: prog => SrcPolyRun.runProgram prog
+  | ["srcouter", cs, kx, vs] =>
+    -- the outer series as translated from the source, run over the rationals on integer coefficients
+    match parseCfg cs, parseNatList kx, (vs.splitOn ",").mapM String.toInt? with
+    | some c, some kx, some vs =>
+      if kx.length != vs.length then "bad-op" else
+      let x : MV Rat := kx.zip (vs.map fun (v : Int) => ((v : Int) : Rat))
+      let ops := SrcEq.outerOps c (fun (v : Rat) => v == 0)
+      let show1 (r : Py.M (Py.Dict Int Rat)) : String := match r with
+        | .ok m => joinC ((m.filter fun kv => kv.2 != 0).map fun kv => s!"{kv.1}:{kv.2.num}/{kv.2.den}")
+        | .error e => "raise:" ++ e
+      show1 (Src.codegen_outerexp (SrcEq.algOf c) ops (SrcEq.castMV x)) ++ "|" ++ show1 (Src.codegen_outersin (SrcEq.algOf c) ops (SrcEq.castMV x)) ++ "|" ++
+        show1 (Src.codegen_outercos (SrcEq.algOf c) ops (SrcEq.castMV x))
+    | _, _, _ => "bad-op"
   | ["wedgepowers", cs, kx] =>
     match parseCfg cs, parseNatList kx with
     | some c, some kx => String.intercalate "|" ((wedgePowers c Poly.isZero (symMV 0 kx)).map renderMV)
